@@ -307,6 +307,8 @@ def finish(report: Report) -> int:
         "known_finding_hits": report.known_hits,
         "notes": report.notes,
     }
+    if report.level == "other":      # a run cut short (see ./check): nothing was covered, only the explanation counts
+        cov = {"explanation": report.rule, "notes": report.notes}
     ev = {
         "property_id": report.prop,
         "tier": report.tier,
